@@ -11,20 +11,20 @@ import (
 )
 
 type TypeOpts struct {
-	MaxDepth   int  // nesting depth of arrays/tuples
-	MaxTuple   int  // tuple width
-	MaxFixed   int  // largest k of T[k]
+	MaxDepth        int // nesting depth of arrays/tuples
+	MaxTuple        int // tuple width
+	MaxFixed        int // largest k of T[k]
 	AllowBoolArrays bool
 }
 
 var DefaultTypeOpts = TypeOpts{MaxDepth: 3, MaxTuple: 4, MaxFixed: 13}
 
 type ctx struct {
-	o            TypeOpts
-	n            int  // name counter
-	underArrTup  bool // inside a tuple that is an array element: selected arrays are outside the row rule
-	cols         *int
-	selProb      int // percent
+	o           TypeOpts
+	n           int  // name counter
+	underArrTup bool // inside a tuple that is an array element: selected arrays are outside the row rule
+	cols        *int
+	selProb     int // percent
 }
 
 func (c *ctx) name(p string) string {
@@ -119,10 +119,10 @@ func (c *ctx) genTuple(t *rapid.T, depth int, maySelect bool) *refmodel.Type {
 
 // EventOpts controls event generation.
 type EventOpts struct {
-	Types       TypeOpts
-	MaxInputs   int
+	Types        TypeOpts
+	MaxInputs    int
 	AllowIndexed bool
-	SelProb     int // percent chance that a leaf is selected
+	SelProb      int  // percent chance that a leaf is selected
 	NeedSelected bool // at least one selected non-indexed leaf
 }
 
@@ -181,8 +181,9 @@ func GenEvent(t *rapid.T, o EventOpts) *refmodel.Event {
 // ---- values ----------------------------------------------------------------
 
 type ValueOpts struct {
-	MaxDynLen  int // elements of T[]
-	MaxBytes   int // payload of bytes/string
+	MaxDynLen int   // elements of T[]
+	MaxBytes  int   // payload of bytes/string
+	Pool      *Pool // when set, about half of the leaf values come from the pool
 }
 
 var DefaultValueOpts = ValueOpts{MaxDynLen: 4, MaxBytes: 70}
@@ -223,6 +224,27 @@ func intPattern(t *rapid.T, bits int, signed bool) []byte {
 
 func GenValue(t *rapid.T, ty *refmodel.Type, o ValueOpts) refmodel.Value {
 	v := refmodel.Value{T: ty}
+	if o.Pool != nil && ty.IsLeaf() && rapid.Bool().Draw(t, "pool") {
+		switch ty.Kind {
+		case refmodel.KUint:
+			v.Word = make([]byte, 32)
+			v.Word[31] = byte(rapid.IntRange(0, 6).Draw(t, "small"))
+			return v
+		case refmodel.KAddress:
+			v.Word = make([]byte, 32)
+			copy(v.Word[12:], rapid.SampledFrom(o.Pool.Addrs).Draw(t, "pooladdr"))
+			return v
+		case refmodel.KString:
+			v.Data = []byte(rapid.SampledFrom(o.Pool.Strings).Draw(t, "poolstr"))
+			return v
+		case refmodel.KBytes:
+			v.Data = append([]byte{}, rapid.SampledFrom(o.Pool.Blobs).Draw(t, "poolblob")...)
+			if rapid.Bool().Draw(t, "tail") {
+				v.Data = append(v.Data, rapid.SliceOfN(rapid.Byte(), 0, 8).Draw(t, "blobtail")...)
+			}
+			return v
+		}
+	}
 	switch ty.Kind {
 	case refmodel.KUint:
 		v.Word = intPattern(t, ty.Bits, false)
